@@ -819,3 +819,30 @@ func TestVerifE7Config(t *testing.T) {
 	}
 	fmt.Printf("E7-CONFIG cases=%d hist=%v\n", e.out.n, e.hist)
 }
+
+// TestVerifE7NotifyEndpointDown: the notification loop (NSQAdmin.handleAdminActions) with an endpoint nobody
+// listens on. Run in a subprocess: on a tree where the POST error is not handled the process dies.
+// The second send returns only when the loop is back at its receive, i.e. after the first action was handled.
+func TestVerifE7NotifyEndpointDown(t *testing.T) {
+	opts := NewOptions()
+	opts.HTTPAddress = "127.0.0.1:0"
+	opts.NSQLookupdHTTPAddresses = []string{vfE7Dead}
+	opts.NotificationHTTPEndpoint = "http://" + vfE7Dead + "/notify"
+	opts.Logger = vfE7NullLogger{}
+	opts.LogLevel = lg.FATAL
+	opts.HTTPClientConnectTimeout = time.Second
+	opts.HTTPClientRequestTimeout = time.Second
+	n, err := New(opts)
+	if err != nil {
+		t.Fatal(err)
+	}
+	defer n.httpListener.Close()
+	go n.handleAdminActions()
+	n.notifications <- &AdminAction{Action: "empty_channel", Topic: "t1", Channel: "c1"}
+	select {
+	case n.notifications <- &AdminAction{Action: "pause_topic", Topic: "t1"}:
+		fmt.Println("NOTIFY-OK the notification loop survived an unreachable endpoint")
+	case <-time.After(20 * time.Second):
+		t.Fatal("notification loop stuck")
+	}
+}
